@@ -38,15 +38,18 @@ BUDGET = {
     'thorough': [dict(name='main', env={'NUMBA_BOUNDSCHECK': '1'}, shards=16, cases=_T)],
 }
 WATCHDOG = {'quick': 900, 'thorough': 3000}
-REQUIRED = dict(monitors=['alias:variance-equals-two-pass', 'alias:update-leaves-its-argument-alone', 'online:variance-equals-two-pass', 'online:same-on-every-rank', 'mp:exactly-once',
+REQUIRED = dict(monitors=['online:variance-not-negative', 'alias:variance-equals-two-pass', 'alias:update-leaves-its-argument-alone', 'online:variance-equals-two-pass', 'online:same-on-every-rank', 'mp:exactly-once',
                           'mp:conservation', 'mp:variance-equals-two-pass', 'mp:same-on-every-rank',
                           'mp:derived-trace-equals-single-process', 'mp:equals-single-process'],
                 classes=['rank-with-zero-samples', 'rank-with-one-sample', 'N<R', 'weights:zeros', 'weights:ties',
                          'values:vector', 'mp:R>=3', 'mp:derived', 'mp:binner-pass-through', 'mp:binner-flux',
                          'alias:same-objects-two-accumulators', 'alias:one-buffer-overwritten',
-                         'alias:several-accumulators-other-weights', 'values:tight-spread'])
+                         'alias:several-accumulators-other-weights', 'values:tight-spread',
+                         'weights-handed-over:as-they-are-numpy', 'weights-handed-over:plus-1e-300-numpy', 'values:agree-to-rounding',
+                         'values:zero-weight-samples-elsewhere-weighted-ones-identical'])
 TOL = 1e-10
 EPS = float(np.finfo(float).eps)
+_state = {}
 
 
 def ref_var(values, weights):
@@ -152,10 +155,15 @@ def simulate_online(ctx, values, weights, assign, nranks):
     """values[i], weights[i] go to rank assign[i]; returns parallelVariance() as seen by every rank."""
     from taurex.util.math import OnlineVariance
     objs = [OnlineVariance() for _ in range(nranks)]
-    # the only caller (Optimizer.sample_parameters) hands over weight + 1e-300, never an exact zero
-    weights = np.asarray(weights, dtype=float) + 1e-300
+    # the packaged caller (Optimizer.sample_parameters) hands over weight + 1e-300 as a numpy float; a direct user of the
+    # class hands over its weights as they are (exact zeros included).  Both, as numpy floats or Python floats.
+    weights = np.asarray(weights, dtype=float)
+    style = _state.get('weight_style', 0)
+    if style in (0, 1):
+        weights = weights + 1e-300
+    ctx.observe('weights-handed-over:' + ['plus-1e-300-numpy', 'plus-1e-300-python', 'as-they-are-numpy', 'as-they-are-python'][style])
     for v, w, r in zip(values, weights, assign):
-        objs[r].update(np.array(v, dtype=float) if np.ndim(v) else float(v), weight=float(w))
+        objs[r].update(np.array(v, dtype=float) if np.ndim(v) else float(v), weight=(float(w) if style in (1, 3) else w))
     rv = Rendezvous(nranks, ctx)
     outs, errs = rv.run([o.parallelVariance for o in objs])
     bad = [repr(e)[:200] for e in errs if e is not None]
@@ -186,6 +194,10 @@ def judge_online(ctx, values, weights, assign, nranks, label):
     scale = np.max(np.abs(mean)) ** 2 + np.max(np.abs(np.array(values, dtype=float))) ** 2
     for r, o in enumerate(outs):
         ctx.close('online:variance-equals-two-pass', o, var, TOL, atol=var_allowance(values, mean, var), rank=r, **feat)
+        # a variance is not negative, however small: the callers take its square root (a nan standard deviation otherwise)
+        with np.errstate(invalid='ignore'):
+            ctx.check('online:variance-not-negative', bool(np.all(np.asarray(o, dtype=float) >= 0)), rank=r,
+                      smallest=float(np.min(np.asarray(o, dtype=float))), **feat)
     for o in outs[1:]:
         ctx.check('online:same-on-every-rank', np.array_equal(np.asarray(o), np.asarray(outs[0]), equal_nan=True), **feat)
 
@@ -239,6 +251,26 @@ def wl_online(ctx, rng):
         else:
             vals = [centre * (1.0 + rel * float(rng.normal())) for _ in range(n)]
         ctx.observe('values:tight-spread')
+    elif n >= 2 and rng.random() < 0.2:
+        # samples that agree to rounding (a quantity that is not fitted: the same profile in every sample, up to the last
+        # bits), the first weights (nearly) zero as in a nested-sampling run: the accumulated sum of squares is ~0 +- ulps
+        centre = float(10 ** rng.uniform(-7, 4))
+        if vec:
+            vals = [centre * (1.0 + EPS * rng.integers(-3, 4, len(vals[0]))) for _ in range(n)]
+        else:
+            vals = [centre * (1.0 + EPS * float(rng.integers(-3, 4))) for _ in range(n)]
+        w = np.array(w, dtype=float)
+        k0 = int(rng.integers(1, max(2, n // 2 + 1)))
+        w[:k0] = 0.0
+        if w.sum() == 0:
+            w[-1] = 1.0
+        if rng.random() < 0.6:
+            # ... and the (nearly) zero-weight samples at the start lie somewhere else (the early, far-away points of a
+            # nested-sampling run), the weighted ones agree exactly (duplicates of the best point)
+            for i in range(n):
+                vals[i] = (vals[i] * 0 + centre) if i >= k0 else vals[i] * float(10 ** rng.uniform(-3, 3))
+            ctx.observe('values:zero-weight-samples-elsewhere-weighted-ones-identical')
+        ctx.observe('values:agree-to-rounding')
     split = rng.integers(0, 3)
     if split == 0:
         assign = np.arange(n) % nranks                  # the round-robin split the code uses
@@ -246,7 +278,14 @@ def wl_online(ctx, rng):
         assign = rng.integers(0, nranks, n)
     else:
         assign = np.sort(rng.integers(0, nranks, n))    # contiguous blocks, some ranks empty
+    style = int(rng.integers(0, 4))
+    tot = np.bincount(np.asarray(assign, dtype=int), weights=np.asarray(w, dtype=float), minlength=nranks) if n else np.zeros(nranks)
+    cnt = np.bincount(np.asarray(assign, dtype=int), minlength=nranks) if n else np.zeros(nranks, dtype=int)
+    if style >= 2 and np.any((cnt > 0) & (tot <= 0)):
+        style -= 2           # a rank holding only zero-weight samples: the packaged caller never produces that (w + 1e-300)
+    _state['weight_style'] = style
     judge_online(ctx, vals, w, np.asarray(assign, dtype=int), nranks, 'random')
+    _state['weight_style'] = 0
     ctx.sig('online', nranks, n, wcls, bool(vec), int(split), tuple(np.bincount(np.asarray(assign, dtype=int), minlength=nranks).tolist()))
     ctx.sample({'workload': 'online', 'ranks': nranks, 'n': n, 'weights': wcls, 'vector': bool(vec),
                 'per_rank_counts': np.bincount(np.asarray(assign, dtype=int), minlength=nranks).tolist()})
